@@ -235,6 +235,21 @@ fn scenarios() -> Vec<Scenario> {
             let sv = l.try_accept()?;
             Ok(vec![bx(l), bx(none), bx(cl), bx(sv)])
         }),
+        s!("tcp try_connect(in progress)+follow-up on a closed port", |c| {
+            // a two-step operation: the socket made by the first step is owned by the in-progress
+            // value, a failing follow-up has to give it back
+            let addr = SocketAddress::new(Ip::V4([127, 0, 0, 1]), c.port);
+            let r = match TcpStream::try_connect(&addr) {
+                Ok(TcpTryConnect::Connected(s)) => Some(s),
+                Ok(TcpTryConnect::InProgress(p)) => match p.try_connect() {
+                    Ok(TcpTryConnect::Connected(s)) => Some(s),
+                    Ok(TcpTryConnect::InProgress(p2)) => p2.connect_blocking().ok(),
+                    Err(_) => None,
+                },
+                Err(_) => None,
+            };
+            Ok(vec![bx(r)])
+        }),
         s!("tcp connect(refused)+connect_with_timeout", |c| {
             let addr = SocketAddress::new(Ip::V4([127, 0, 0, 1]), c.port);
             let a = TcpStream::connect(&addr).ok();
@@ -307,6 +322,17 @@ fn scenarios() -> Vec<Scenario> {
         }),
         s!("openpty", |_c| {
             let t = tiny_std::unix::misc::openpty::openpty(None, None, None)?;
+            Ok(vec![bx(RawFds(vec![t.master.value(), t.slave.value()]))])
+        }),
+        s!("openpty(window size)", |_c| {
+            // the settings are applied after both descriptors exist
+            let ws = rusl::platform::WindowSize::new(24, 80, 0, 0);
+            let t = tiny_std::unix::misc::openpty::openpty(None, None, Some(&ws))?;
+            Ok(vec![bx(RawFds(vec![t.master.value(), t.slave.value()]))])
+        }),
+        s!("openpty(slave name that is no terminal)", |_c| {
+            let ws = rusl::platform::WindowSize::new(24, 80, 0, 0);
+            let t = tiny_std::unix::misc::openpty::openpty(Some(rusl::string::unix_str::UnixStr::from_str_checked("/dev/null\0")), None, Some(&ws))?;
             Ok(vec![bx(RawFds(vec![t.master.value(), t.slave.value()]))])
         }),
         s!("getpwuid_r", |_c| {
